@@ -25,6 +25,7 @@ type Dim struct {
 	I          int  // DimIndex
 	M, N       int  // DimRange bounds
 	Begin, End bool // DimRange: `begin` / `end` keywords
+	Bare       bool // ... or the bound simply left out: (1:), (:2)
 }
 
 type SelStep interface{ isStep() }
@@ -92,9 +93,15 @@ func (s Selector) Render() string {
 						m, n := strconv.Itoa(d.M), strconv.Itoa(d.N)
 						if d.Begin {
 							m = "begin"
+							if d.Bare {
+								m = ""
+							}
 						}
 						if d.End {
 							n = "end"
+							if d.Bare {
+								n = ""
+							}
 						}
 						b.WriteString("(" + m + ":" + n + ")")
 					}
